@@ -52,7 +52,9 @@ def kfl_case(item, ctx=None, only=None):
   if only is not None:
     W = np.asarray(only["kernel"], dtype=np.float64)[None]
   msgs = []
-  X, _ = rk.grid(L, dims, outside=clip)
+  # without clipping both representations extrapolate multilinearly for lattice_sizes == 2;
+  # for larger sizes the out-of-range behaviour is only defined with clipping
+  X, _ = rk.grid(L, dims, outside=(clip or L == 2))
   Sw = alpha.words((-2.0, 0.5, 0.0), terms).T if only is None else np.asarray(only["scale"])[None]
   total = 0
   for s in Sw:
